@@ -61,6 +61,9 @@ def recursion_cases(chk):
         head = src[: len(src) - len(kick)].rstrip()
         shapes["try-around:" + name] = "%s try { %s } catch (lim) { depth = -1; }" % (head, kick)
         shapes["retry-loop:" + name] = "%s for (var att = 0; att < 3; att++) { try { %s } catch (lim) { depth = depth + 0; } }" % (head, kick)
+    for name in ("eval", "cb:map", "getter", "call", "self", "valueOf", "try-around:eval", "cb:sort"):
+        if name in shapes:
+            shapes["after-failures:" + name] = shapes[name]
     ms = [2000, 10000, 100000, 1000000]
     if chk.tier == "thorough":
         ms.append(10000000)
@@ -76,10 +79,31 @@ def recursion_cases(chk):
     return cases
 
 
+PREHISTORY = [
+    "try { eval('var = ;'); } catch (e1) { }",          # nested eval that fails to parse
+    "try { eval('null.x'); } catch (e2) { }",           # nested eval that throws
+    "try { new Function('return (')(); } catch (e3) { }",
+    "var = ;",                                          # the eval itself fails to parse
+    "null.x;",
+    "try { [1].forEach(function(){ null.x; }); } catch (e4) { }",
+    "try { new RegExp('('); } catch (e5) { }",
+]
+
+
 def run_growth(case):
     name, src, mem, t = case
     m = engine.load()
     ctx = m.Context(memory_limit=mem, time_limit=t)
+    if name.startswith("after-failures:"):
+        # a long-lived context: many evaluations that ended in every kind of error come first
+        for i in range(700):
+            try:
+                with pool.cpu_alarm(20):
+                    ctx.eval(PREHISTORY[i % len(PREHISTORY)])
+            except pool.HarnessTimeout:
+                break
+            except Exception:
+                pass
     cpu0 = time.process_time()
     try:
         with pool.cpu_alarm(60):
@@ -429,8 +453,8 @@ def main(chk):
     res = pool.run(run_growth, g, timeout=200)
     for c, r in zip(g, res):
         judge_growth(chk, c, r)
-    nb = 500 if chk.tier == "quick" else 6000
-    n_iter = 300 if chk.tier == "quick" else 2000
+    nb = 500 if chk.tier == "quick" else 2500
+    n_iter = 300 if chk.tier == "quick" else 1000
     base = core.shard_seed(chk.seed, "C02", "bounded") % (10 ** 9)
     cases = [(base + i, i % 2 == 0, n_iter) for i in range(nb)]
     res = pool.run(run_bounded, cases, timeout=400)
